@@ -4,7 +4,6 @@ from .brokergen import *
 
 HARNESS = "broker"
 CONST_GROUPS = ["security", "message", "cipher", "license"]
-READY = False
 RULE = ("one case = one broker session: publishes with and without retain flag / ttl option / store permission on nested "
         "channels (ttl values 0, small, 2^32 and 2^32+5), last wills with retain, interleaved with later subscriptions with "
         "and without load permission and every `last` value (0, 1, default, several, huge); the packets between SUBSCRIBE and "
